@@ -13,7 +13,6 @@ import (
 	"crypto/ecdsa"
 	"encoding/binary"
 	"encoding/hex"
-	"encoding/json"
 	"fmt"
 	"math"
 	"math/big"
@@ -108,8 +107,9 @@ type sim struct {
 	// set by tours that close the world themselves (the case is already registered)
 	closedTerm string
 	// C05: views before/after every operation, indexed by the hop range the operation produced
-	opViews []opView
-	crash   bool
+	opViews  []opView
+	hopViews map[int]server.VerifSnap // view after n hops
+	crash    bool
 }
 
 type opView struct {
@@ -139,14 +139,7 @@ func (s *sim) fail(what, key string) {
 	s.res.Fail(what, key, map[string]interface{}{"history": s.w.Desc})
 }
 
-func viewJSON(sn server.VerifSnap, withImpact bool) string {
-	if !withImpact {
-		sn.Impact = nil
-	}
-	sn.Migrations = nil
-	j, _ := json.Marshal(sn)
-	return string(j)
-}
+func viewJSON(sn server.VerifSnap, withImpact bool) string { return snapJSON(sn, withImpact) }
 
 // ---------------------------------------------------------------- registration (C07)
 
@@ -185,7 +178,7 @@ func (s *sim) register(kind string) {
 		if before.GCAAvailable {
 			s.fail("a second GCA registration succeeded ("+kind+")", "c07-second-registration")
 		}
-		if !glow.Verify(w.Temp.Pub, append([]byte("GCARegistration"), key[:]...), sig) {
+		if !refVerify(w.Temp.Pub, append([]byte("GCARegistration"), key[:]...), sig) {
 			s.fail("a registration not signed by the temporary key was accepted ("+kind+")", "c07-unsigned-registration")
 		}
 		if !after.GCAAvailable || after.GCAKey != key {
@@ -226,7 +219,7 @@ func (s *sim) authorize(ea glow.EquipmentAuthorization, kind string) string {
 		return ob
 	}
 	changed := viewJSON(before, true) != viewJSON(after, true)
-	sigOK := before.GCAAvailable && glow.Verify(before.GCAKey, refAuthSigningBytes(ea), ea.Signature)
+	sigOK := before.GCAAvailable && refVerify(before.GCAKey, refAuthSigningBytes(ea), ea.Signature)
 	if changed && !before.GCAAvailable {
 		s.fail("equipment changed before any GCA registration", "c07-equipment-before-registration")
 	}
@@ -239,6 +232,9 @@ func (s *sim) authorize(ea glow.EquipmentAuthorization, kind string) string {
 		if b == ea.ShortID {
 			wasBanned = true
 		}
+	}
+	if os.Getenv("VERIF_DEBUG") != "" && strings.HasPrefix(kind, "conflict-signed") {
+		fmt.Fprintf(os.Stderr, "DEBUG kind=%s sigOK=%v had=%v eq=%v changed=%v ob=%s avail=%v\n", kind, sigOK, had, cur == ea, changed, ob, before.GCAAvailable)
 	}
 	if sigOK {
 		switch {
@@ -745,6 +741,21 @@ func (s *sim) stats(kind string, falseNeg bool) {
 		tso = sn.Offset + 2016*uint32(2+s.r.Intn(3))
 	case "misaligned":
 		tso = sn.Offset + uint32(1+s.r.Intn(2015))
+	case "huge":
+		// week offsets that do not fit 32 bits must be refused, not wrapped onto a servable week
+		for _, k := range []uint64{1, 2, 63, 1 << 31} {
+			for _, low := range []uint64{0, uint64(sn.Offset), uint64(sn.Offset) + 2016} {
+				q := fmt.Sprintf("/api/v1/all-device-stats?timeslot_offset=%d", k<<32+low)
+				rr := w.Raw("GET", q, nil)
+				s.res.Count("stats.huge")
+				if rr.Panicked {
+					s.fail("statistics request panics the handler (huge offset)", "panic-stats")
+				} else if rr.Status == 200 {
+					s.fail(fmt.Sprintf("a week offset of %d (not a 32-bit value) was served instead of refused", k<<32+low), "c03-huge-offset-served")
+				}
+			}
+		}
+		return
 	}
 	ads, r := w.Stats(tso, falseNeg, !falseNeg, kind)
 	s.res.Count("stats." + kind)
@@ -782,7 +793,7 @@ func (s *sim) stats(kind string, falseNeg bool) {
 		if srv.CoqStats(*ads) != want {
 			s.fail("the statistics served for a "+kind+" week differ from the accepted reports", "c03-content-"+kind)
 		}
-		if !glow.Verify(s.a.Server.Pub, refStatsSigningBytes(*ads), ads.Signature) {
+		if !refVerify(s.a.Server.Pub, refStatsSigningBytes(*ads), ads.Signature) {
 			s.fail("statistics signature does not verify under the server key over the documented layout ("+kind+")", "c03-signature")
 		}
 	} else {
@@ -932,6 +943,7 @@ func (s *sim) stepCrash(p profile) {
 
 func stripForView(sn server.VerifSnap) string {
 	sn.History = nil
+	sn.PublicKey = glow.PublicKey{} // an image taken before server.keys became durable gets fresh keys at recovery
 	return viewJSON(sn, false)
 }
 
@@ -998,6 +1010,13 @@ func (s *sim) recoverCrashImages(first server.VerifSnap) {
 				break
 			}
 		}
+		// finer: the views right before and right after the hop during which the image was taken
+		if v, ok := s.hopViews[ci.OpSeq]; ok {
+			cands = append(cands, v)
+		}
+		if v, ok := s.hopViews[ci.OpSeq+1]; ok {
+			cands = append(cands, v)
+		}
 		ok := false
 		for _, c := range cands {
 			exp := c
@@ -1020,6 +1039,15 @@ func (s *sim) recoverCrashImages(first server.VerifSnap) {
 		if ok {
 			s.res.Count("crash.recovered")
 		} else {
+			if os.Getenv("VERIF_DEBUG") != "" {
+				fmt.Fprintf(os.Stderr, "DEBUG crash image opseq=%d now=%d\n got=%s\n", ci.OpSeq, ci.Now, stripForView(got))
+				for i, c := range cands {
+					fmt.Fprintf(os.Stderr, " cand%d=%s\n", i, stripForView(c))
+				}
+				if ci.OpSeq > 0 && ci.OpSeq < len(s.w.Desc) {
+					fmt.Fprintf(os.Stderr, " hop=%v prev=%v\n", s.w.Desc[ci.OpSeq], s.w.Desc[ci.OpSeq-1])
+				}
+			}
 			s.fail("the state recovered from a crash image is neither the state before nor the state after the interrupted operation", "c05-partial-state")
 		}
 	}
@@ -1065,7 +1093,7 @@ func (s *sim) step(p profile) {
 	case pick(p.tick):
 		s.rotateTick()
 	case pick(p.stats):
-		kinds := []string{"archived", "live1", "live2", "future", "misaligned"}
+		kinds := []string{"archived", "live1", "live2", "future", "misaligned", "huge"}
 		s.stats(kinds[s.r.Intn(len(kinds))], s.r.Chance(35))
 	case pick(p.restart):
 		nn := s.w.Now
